@@ -1,4 +1,221 @@
 package main
 
+import (
+	"encoding/json"
+	"fmt"
+	"os"
+	"os/exec"
+	"path/filepath"
+	"sort"
+	"strings"
+	"sync"
+	"time"
+)
+
+// Thorough tier = the quick obligations plus
+//   (1) a second load of the repository with the `verif` build tag to make
+//       sure no build-tagged file hides code from the rules: the property's
+//       rules are re-run there and must give the same verdict (the module
+//       needs cgo and only type-checks for linux/amd64, so other GOOS/GOARCH
+//       configurations cannot be loaded);
+//   (2) the checker self-test: every stored mutant of this property
+//       (/verif/selftest/<id>/mut-*.patch — reversals of repaired defects and
+//       hand-made one-instance breakages — and /verif/seeded/*/patch.diff
+//       whose meta.json names this property) is applied to a scratch copy of
+//       /repo and the property's rules must report a violation there; every
+//       benign refactor (/verif/selftest/<id>/benign-*.patch) must stay
+//       silent. A self-test failure fails the check: the checker is not to be
+//       trusted.
+
+type selfResult struct {
+	Patch    string  `json:"patch"`
+	Kind     string  `json:"kind"` // mutant | benign
+	Expected string  `json:"expected"`
+	Got      string  `json:"got"`
+	OK       bool    `json:"ok"`
+	Keys     string  `json:"violated_keys,omitempty"`
+	WallS    float64 `json:"wall_s"`
+}
+
 func runThorough(e *Engine, r *Report, id, repo, verif string, noSelf bool, extra map[string]interface{}) {
+	// (1) alternative build configuration
+	t0 := time.Now()
+	alt, err := Load(repo, []string{"-tags=verif"}, nil)
+	if err != nil {
+		r.Undecided("thorough:alt-config-load", "engine", "the repository loads with -tags verif", "-", nil, err.Error())
+	} else {
+		r2 := NewReport(alt, id)
+		func() {
+			defer func() {
+				if p := recover(); p != nil {
+					r2.Undecided("panic", "engine", "analysis must complete", "-", nil, fmt.Sprint(p))
+				}
+			}()
+			registry[id].Run(alt, r2)
+		}()
+		bad := []string{}
+		for _, o := range r2.Obls {
+			if o.Verdict != Discharged {
+				bad = append(bad, o.Key)
+			}
+		}
+		// the same obligations must fail (known findings) or none
+		base := map[string]bool{}
+		for _, o := range r.Obls {
+			if o.Verdict != Discharged {
+				base[o.Key] = true
+			}
+		}
+		var extraBad []string
+		for _, k := range bad {
+			if !base[k] {
+				extraBad = append(extraBad, k)
+			}
+		}
+		r.Check("thorough:alt-config", "engine", "the property's rules give the same verdict with -tags verif (no build-tagged file hides code; the only other build-tagged sources are the !linux stubs, and the module needs cgo on linux/amd64, so no other GOOS/GOARCH configuration type-checks)",
+			"-", nil, len(extraBad) == 0, strings.Join(extraBad, ", "), false)
+		extra["alt_config"] = map[string]interface{}{"tags": "verif", "packages": alt.RepoPkgs, "obligations": len(r2.Obls), "wall_s": time.Since(t0).Seconds()}
+	}
+	if noSelf {
+		return
+	}
+	// (2) self-test
+	type job struct {
+		path, kind string
+	}
+	var jobs []job
+	dir := filepath.Join(verif, "selftest", id)
+	if ents, err := os.ReadDir(dir); err == nil {
+		for _, en := range ents {
+			n := en.Name()
+			switch {
+			case strings.HasPrefix(n, "mut-") && strings.HasSuffix(n, ".patch"):
+				jobs = append(jobs, job{filepath.Join(dir, n), "mutant"})
+			case strings.HasPrefix(n, "benign-") && strings.HasSuffix(n, ".patch"):
+				jobs = append(jobs, job{filepath.Join(dir, n), "benign"})
+			}
+		}
+	}
+	if ents, err := os.ReadDir(filepath.Join(verif, "seeded")); err == nil {
+		for _, en := range ents {
+			mp := filepath.Join(verif, "seeded", en.Name(), "meta.json")
+			b, err := os.ReadFile(mp)
+			if err != nil {
+				continue
+			}
+			var meta struct {
+				Property   string   `json:"property"`
+				Properties []string `json:"properties"`
+				Detected   []string `json:"detected_by"`
+			}
+			if json.Unmarshal(b, &meta) != nil {
+				continue
+			}
+			for _, p := range meta.Detected {
+				if p == id {
+					jobs = append(jobs, job{filepath.Join(verif, "seeded", en.Name(), "patch.diff"), "mutant"})
+				}
+			}
+		}
+	}
+	sort.Slice(jobs, func(i, j int) bool { return jobs[i].path < jobs[j].path })
+	if len(jobs) == 0 {
+		extra["selftest"] = "no stored mutants for this property"
+		return
+	}
+	self, _ := os.Executable()
+	results := make([]selfResult, len(jobs))
+	sem := make(chan struct{}, 6)
+	var wg sync.WaitGroup
+	for i, j := range jobs {
+		wg.Add(1)
+		go func(i int, j job) {
+			defer wg.Done()
+			sem <- struct{}{}
+			defer func() { <-sem }()
+			results[i] = runOnePatch(self, repo, id, j.path, j.kind)
+		}(i, j)
+	}
+	wg.Wait()
+	killed, silent := 0, 0
+	for _, res := range results {
+		name := filepath.Base(filepath.Dir(res.Patch)) + "/" + filepath.Base(res.Patch)
+		r.Check("selftest:"+name, "checker self-test", fmt.Sprintf("%s patch: expected %s", res.Kind, res.Expected), "-", nil, res.OK,
+			"got "+res.Got+" "+res.Keys, false)
+		if res.OK && res.Kind == "mutant" {
+			killed++
+		}
+		if res.OK && res.Kind == "benign" {
+			silent++
+		}
+	}
+	extra["selftest"] = results
+	extra["mutants_killed"] = killed
+	extra["benign_silent"] = silent
+}
+
+func runOnePatch(self, repo, id, patch, kind string) selfResult {
+	t0 := time.Now()
+	res := selfResult{Patch: patch, Kind: kind, Expected: map[string]string{"mutant": "violation", "benign": "silence"}[kind]}
+	tmp, err := os.MkdirTemp("", "nrilint-selftest-")
+	if err != nil {
+		res.Got = "error: " + err.Error()
+		return res
+	}
+	defer os.RemoveAll(tmp)
+	scratch := filepath.Join(tmp, "repo")
+	sv := filepath.Join(tmp, "verif")
+	os.MkdirAll(sv, 0o755)
+	if out, err := exec.Command("rsync", "-a", "--exclude=.git", "--exclude=build", repo+"/", scratch+"/").CombinedOutput(); err != nil {
+		res.Got = "error copying: " + string(out)
+		return res
+	}
+	cmd := exec.Command("patch", "-p1", "--no-backup-if-mismatch", "-s", "-i", patch)
+	cmd.Dir = scratch
+	if out, err := cmd.CombinedOutput(); err != nil {
+		res.Got = "patch does not apply: " + strings.TrimSpace(string(out))
+		res.OK = false
+		return res
+	}
+	c := exec.Command(self, "check", "-p", id, "-tier", "quick", "-repo", scratch, "-verif", sv)
+	c.Env = append(os.Environ(), "GOGC=200")
+	out, err := c.CombinedOutput()
+	code := 0
+	if err != nil {
+		if ee, ok := err.(*exec.ExitError); ok {
+			code = ee.ExitCode()
+		} else {
+			res.Got = "error running: " + err.Error()
+			return res
+		}
+	}
+	var keys []string
+	for _, line := range strings.Split(string(out), "\n") {
+		line = strings.TrimSpace(line)
+		if strings.HasPrefix(line, "key=") {
+			keys = append(keys, strings.TrimPrefix(line, "key="))
+		}
+	}
+	if len(keys) > 4 {
+		keys = append(keys[:4], fmt.Sprintf("(+%d more)", len(keys)-4))
+	}
+	res.Keys = strings.Join(keys, " | ")
+	switch {
+	case code == 1 && strings.Contains(string(out), "VIOLATION property="+id):
+		res.Got = "violation"
+		// a mutant that no longer type-checks is not a kill
+		if strings.Contains(string(out), "load failed") {
+			res.Got = "load failure (mutant does not compile)"
+			res.OK = false
+			res.WallS = time.Since(t0).Seconds()
+			return res
+		}
+	case code == 0:
+		res.Got = "silence"
+	default:
+		res.Got = fmt.Sprintf("exit %d", code)
+	}
+	res.OK = res.Got == res.Expected
+	res.WallS = time.Since(t0).Seconds()
+	return res
 }
